@@ -51,6 +51,20 @@ claim("C10",
       "_lookup_label consumes the shape it asked for; Taxon identity reads no state. Lookup contents and round trips as values are not decided.",
       NOTE, "DESIGN.md section 2, C10")
 
+claim("C03",
+      "who-may-write ownership table over the link fields, CFG pairing rules with branch correlation, guard dominance before Edge.collapse, flag-honouring must-pass-through",
+      "Static: the five link fields are written only by the 19 book-keeping functions of a frozen table; inside each, parent stores are paired with child-list "
+      "placement/removal on every path; every Edge.collapse call is dominated by a has-children test; with update_bipartitions truthy every structural change is "
+      "followed by a re-encode or a forwarding call; a node handed to remove_child after a node-deleting call is re-checked; raw child lists are not iterated while "
+      "restructured. That arbitrary operation histories preserve the invariant is not decided beyond these per-function necessary conditions.",
+      NOTE, "DESIGN.md section 2, C03")
+claim("C07",
+      "CFG must-pass-through for the rooting flag, transitive effect analysis of soft operations, splice-out length-merge pattern check, argument wiring",
+      "Static: hard re-rootings set is_rooted on every path; soft operations reach no store of True to the flag and no hard operation; the outgroup is re-inserted "
+      "at index 0 of the reseed target; every single-child splice-out merges edge lengths; reroot_at_edge wires length1/length2; Edge.invert swaps lengths. "
+      "Midpoint position, split-set and path-length equality are value-level and not decided.",
+      NOTE, "DESIGN.md section 2, C07")
+
 _PENDING = "rule module not yet built in this session (claimed in DESIGN.md; will move to checks when the rule lands)"
 for _p in ["C01","C02","C03","C04","C05","C06","C07","C08","C09","C10","C11","C12","C13","C15","C16","C18","C20"]:
     if _p not in CLAIMED:
